@@ -38,6 +38,12 @@ type Config struct {
 	First     uint64
 	Instances []InstanceCfg
 	Honest    []gpbft.ActorID // live honest participants
+	// Divergent (a subset of Honest): honest participants whose view of the instance's base
+	// tipset differs from everybody else's in the power-table CID only (diverged derived
+	// state). Everything they send carries a foreign base and everything they hear does too,
+	// so they must drop it all; their power is not needed by the others (they are drawn from
+	// the members that would otherwise be crash-silent).
+	Divergent []gpbft.ActorID
 	Silent    []gpbft.ActorID // crash-silent members (never run)
 	Byz       []gpbft.ActorID
 	Options   []gpbft.Option
@@ -127,6 +133,7 @@ type Node struct {
 	// coalition runs once per partition side (two-faced adversary). It is never
 	// checked by monitors and its decisions do not count.
 	Byz      bool
+	Divergent bool
 	Group    int
 	Idx      int
 	ID       gpbft.ActorID
@@ -263,6 +270,11 @@ func (h *host) GetProposal(_ context.Context, instance uint64) (*gpbft.Supplemen
 			}
 		}
 	}
+	if n.Divergent {
+		cp := *base
+		cp.PowerTable = gpbft.MakeCid([]byte("diverged-derived-state"))
+		base = &cp
+	}
 	chain := PathChain(base, path)
 	n.Bases[instance] = base
 	// the participant proposes at most ChainMaxLen tipsets of what the host returns
@@ -383,6 +395,11 @@ func NewWorld(cfg *Config, fail func(id, sig, msg string)) (*World, error) {
 	for i, id := range cfg.Honest {
 		n := &Node{W: w, Idx: i, ID: id, Decided: map[uint64]*Decision{}, Bases: map[uint64]*gpbft.TipSet{}, Inputs: map[uint64]*gpbft.ECChain{}, byInst: map[gpbft.Instant]*gpbft.GMessage{}}
 		n.Mon = newMonitor(n)
+		for _, d := range cfg.Divergent {
+			if d == id {
+				n.Divergent = true
+			}
+		}
 		opts := append([]gpbft.Option{}, cfg.Options...)
 		opts = append(opts, gpbft.WithTracer(w.Tracer))
 		p, err := gpbft.NewParticipant(&host{n: n}, opts...)
@@ -679,7 +696,7 @@ func cloneMsg(m *gpbft.GMessage) *gpbft.GMessage {
 // AllDecided reports whether every started live node decided the last instance.
 func (w *World) AllDecided() bool {
 	for _, n := range w.Nodes {
-		if n.Started {
+		if n.Started && !n.Divergent {
 			if _, ok := n.Decided[w.Cfg.Last()]; !ok {
 				return false
 			}
